@@ -144,6 +144,13 @@ structure DirSt where
   markers : AMap Topic (Nat × Bool) := AMap.empty
   deriving Repr
 
+/-- an injected I/O fault (hook H1) for one operation: event kind and 0-based position.
+kind 0 = entry write (`Block::write` call / io_uring completion of entry `n`), 7 = io_uring submission -/
+structure Fault where
+  kind : Nat
+  n : Nat
+  deriving Repr, DecidableEq
+
 structure Proc where
   files : List FileSt := []
   trk : Trackers := {}
